@@ -91,15 +91,18 @@ def driver_B():
 
 def driver_C():
     structs = [("GS", [("int", "n"), (F2, "v")])]
-    globals_ = [(("arr", "int", (2, 2)), "g2"), (("arr", ("struct", "GS"), (2,)), "garr")]
+    globals_ = [(("arr", "int", (2, 2)), "g2"), (("arr", ("struct", "GS"), (2,)), "garr"), (F2, "uv")]
     fs = [
+        # constructors whose first part is a vector GLOBAL used directly: the global is read, never changed
+        func("fromglobal", [("int", "d")], "float", [("decl", F4, "t", CTOR(F4, V("uv"), lit(1.0), lit(2.0))), ("decl", F4, "u", CTOR(F4, V("uv"), V("uv"))),
+                                                    ("ret", B("+", B("+", IDX(V("t"), V("d")), B("*", IDX(V("u"), B("+", V("d"), lit(2))), lit(10.0))), B("*", IDX(V("uv"), V("d")), lit(100.0))))]),
         func("set2", [("int", "d")], "int", [ASG(IDX(IDX(V("g2"), V("d")), 1), B("+", IDX(IDX(V("g2"), V("d")), 1), lit(1))), wrap(IDX(IDX(V("g2"), V("d")), 1), 1),
                                             ("ret", B("+", B("+", B("*", IDX(IDX(V("g2"), 0), 0), lit(1000)), B("*", IDX(IDX(V("g2"), 0), 1), lit(100))), B("+", B("*", IDX(IDX(V("g2"), 1), 0), lit(10)), IDX(IDX(V("g2"), 1), 1))))]),
         func("setelem", [("int", "d")], "int", [ASG(FLD(IDX(V("garr"), V("d")), "n"), B("-", lit(1), FLD(IDX(V("garr"), V("d")), "n"))),
                                                ("ret", B("+", B("*", FLD(IDX(V("garr"), 0), "n"), lit(10)), FLD(IDX(V("garr"), 1), "n")))]),
     ]
     return {"name": "C", "prog": lang.prog(fs, globals_, structs),
-            "domains": {"g2": [[[0, 0], [0, 0]], [[1, 0], [0, 1]]], "garr": [[{"n": 0, "v": [0.5, 1.5]}, {"n": 1, "v": [0.5, 1.5]}]]},
+            "domains": {"g2": [[[0, 0], [0, 0]], [[1, 0], [0, 1]]], "garr": [[{"n": 0, "v": [0.5, 1.5]}, {"n": 1, "v": [0.5, 1.5]}]], "uv": [[3.5, 4.5]]},
             "invoke": [(f["name"], a) for f in fs for a in (0, 1)]}
 
 
